@@ -328,6 +328,6 @@ def view(case):
     """the replay record of a case (everything needed to rebuild the package)"""
     return {"tool": case["tool"], "label": case.get("label"), "go_generate": case.get("go_generate"),
             "flags": case.get("flags"), "shapes": case.get("shapes"), "trait_kinds": case.get("trait_kinds"),
-            "spec": case["spec"],
+            "spec": case["spec"], "files": case.get("files"),
             "observed": {k: case["obs"].get(k) for k in ("exit", "file_written", "gofmt_clean", "build_ok",
                                                          "outcome", "errors", "classes")}}
